@@ -22,6 +22,7 @@ BG = dict(zip(COLORS, range(40, 48)))
 
 
 def deductive(check, tier):
+    import contracts.justify  # noqa: F401  (registers the callee form fmtstr#attributes)
     keys = A.ATT_KEYS if tier == "thorough" else ("fg", "bg", "bold", "dark")
     verify(A.extend_split(keys), tier, check)
     verify(A.remove_split(keys if tier != "thorough" else A.ATT_KEYS[:5]), tier, check)
